@@ -127,10 +127,12 @@ def generated_column(res, third):
         ysorted = dict(ip, assets=sorted(ip['assets'], key=lambda a: a['id']))
         for (lf, mf), ow in keep.get('wrapper', {}).items():
             add(f'create_attack_graph({lf}, {mf})', ow, mode='wrapper', lang_file=lf, model_file=mf, inst=ysorted if mf.endswith('yml') else ip)
-    out = run_driver(pl)
+    out = run_driver(pl, case_limit=60)
     vs = []
     for (ci, kind, want), o in zip(meta, out):
         spec, inst = third[ci][0], third[ci][1]
+        if 'skipped' in o:
+            res.bump('generated_code_skipped:no answer within the per-case limit'); continue
         if 'error' in o:
             vs.append(genexec.driver_error('C16', o['error'], {'spec': spec, 'inst': inst, 'run': kind})); continue
         g = o['model']
@@ -160,7 +162,7 @@ def run(seed, tier, lean) -> Result:
         spec['categories'] = [{'name': 'Cat', 'meta': {}}]
         for a in spec['assets']: a['category'] = 'Cat'
         cases.append((spec, gen_model(r, spec)))
-    model = run_driver([{'op': 'gen', 'case': i, 'lang': lang_payload(s), 'inst': inst_payload(m)} for i, (s, m) in enumerate(cases)]) if lean['build_ok'] else None
+    model = run_driver([{'op': 'gen', 'case': i, 'lang': lang_payload(s), 'inst': inst_payload(m)} for i, (s, m) in enumerate(cases)], case_limit=30) if lean['build_ok'] else None
     firsts = []
     third = []          # the cases for the third column (the GENERATED code), run after the real code
     for i, (spec, inst) in enumerate(cases):
@@ -178,7 +180,7 @@ def run(seed, tier, lean) -> Result:
         if len(o1['nodes']) >= 8 and len(o1['edges']) >= 4: res.nontrivial.add(canon_hash([spec, inst]))
         if probs:
             res.violations.append(Violation(what=probs[0], fingerprint='C16:' + probs[0].split(' (')[0][:60], replay={'spec': spec, 'inst': inst, 'problems': probs})); continue
-        if model is not None:
+        if model is not None and 'skipped' not in model[i]:
             mo = model[i].get('model', {})
             if 'error' in mo or model_nodes_canon(mo['nodes']) != o1['nodes'] or set(map(tuple, mo['edges'])) != set(map(tuple, o1['edges'])):
                 res.violations.append(Violation(what='the serialized graph differs from the single answer of the Lean model', fingerprint='C16:model-divergence',
